@@ -17,7 +17,7 @@ structure NP (s : State) : Prop where
 theorem np_init (progs : Tid → List Op) : NP (init progs) := by
   constructor; simp [init]
 
-set_option maxHeartbeats 4000000 in
+set_option maxHeartbeats 2000000 in
 theorem np_stepIface {s s' : State} {t : Tid} {evs : List Ev} (h : NP s)
     (hw : W s) (hq : QW s) (ht : t ≠ 0)
     (hs : stepIface Cfg.fixed s t = some (s', evs)) : NP s' := by
@@ -32,7 +32,7 @@ theorem np_stepIface {s s' : State} {t : Tid} {evs : List Ev} (h : NP s)
      obtain ⟨b1, b2, b3, b4, b5, b6, b7⟩ := hw
      constructor <;> (try simp only [setPc]) <;> grind [holdsP, QW, mem_addSet])
 
-set_option maxHeartbeats 4000000 in
+set_option maxHeartbeats 2000000 in
 theorem np_stepSolver {s s' : State} {evs : List Ev} (h : NP s)
     (hs : stepSolver Cfg.fixed s = some (s', evs)) : NP s' := by
   unfold stepSolver at hs
@@ -62,7 +62,7 @@ def wp2 (s : State) (u : Tid) : Nat := if mustWait s u = true then waitPos (s.th
 
 def muWait2 (n : Nat) (s : State) : Nat := sumTo (wp2 s) n
 
-set_option maxHeartbeats 8000000 in
+set_option maxHeartbeats 2000000 in
 /-- every interface step decreases (`rk`, `wp2`) of the stepping thread lexicographically and,
 when `rk` stays, leaves the other threads and the solver's distance alone -/
 theorem iface_rank2 {s s' : State} {t : Tid} {evs : List Ev}
@@ -90,7 +90,7 @@ theorem iface_rank2 {s s' : State} {t : Tid} {evs : List Ev}
        | (left; grind [pcRank, progCost, opCost])
        | (right; refine ⟨by simp_all [pcRank], by grind [waitPos, mustWait], by grind, by simp_all⟩))
 
-set_option maxHeartbeats 8000000 in
+set_option maxHeartbeats 2000000 in
 /-- no solver step increases a thread's `wp2` -/
 theorem solver_wp2 {s s' : State} {evs : List Ev}
     (hw : W s) (hnp : NP s)
